@@ -3955,9 +3955,9 @@ func (c *BytecodeCompiler) pattern(pattern ast.PatternNode, valType types.Type) 
 	case *ast.SetPatternNode:
 		c.setPattern(pat.Location(), pat.Elements, valType)
 	case *ast.ListPatternNode:
-		c.listOrTuplePattern(c.typeOf(pat), pat.Location(), pat.Elements, true)
+		c.listOrTuplePattern(c.typeOf(pat), pat.ElementType, pat.Location(), pat.Elements, true)
 	case *ast.TuplePatternNode:
-		c.listOrTuplePattern(c.typeOf(pat), pat.Location(), pat.Elements, false)
+		c.listOrTuplePattern(c.typeOf(pat), pat.ElementType, pat.Location(), pat.Elements, false)
 	case *ast.MacroBoundaryNode:
 		stmt := pat.Body[0].(*ast.PatternStatementNode)
 		c.pattern(stmt.Pattern, valType)
@@ -4170,7 +4170,7 @@ func (c *BytecodeCompiler) objectPattern(objectTypeNode ast.ComplexConstantNode,
 				false,
 			)
 
-			c.pattern(e.Value, valType)
+			c.pattern(e.Value, c.typeOf(e))
 			c.emit(location.StartPos.Line, bytecode.POP_SKIP_ONE)
 			jmp := c.emitJump(location.StartPos.Line, bytecode.JUMP_UNLESS_NP)
 			jumpsToPatch = append(jumpsToPatch, jmp)
@@ -4240,7 +4240,7 @@ func (c *BytecodeCompiler) mapOrRecordPattern(typ types.Type, location *position
 			c.emitValue(value.ToSymbol(identifierToName(e.Key)).ToValue(), location)
 			c.compileSubscript(typ, location)
 
-			c.pattern(e.Value, typ)
+			c.pattern(e.Value, c.typeOf(e))
 			c.emit(location.StartPos.Line, bytecode.POP_SKIP_ONE)
 			jmp := c.emitJump(location.StartPos.Line, bytecode.JUMP_UNLESS_NP)
 			jumpsToPatch = append(jumpsToPatch, jmp)
@@ -4250,7 +4250,7 @@ func (c *BytecodeCompiler) mapOrRecordPattern(typ types.Type, location *position
 			c.compileNodeWithResult(e.Key)
 			c.compileSubscript(typ, location)
 
-			c.pattern(e.Value, typ)
+			c.pattern(e.Value, c.typeOf(e))
 			c.emit(location.StartPos.Line, bytecode.POP_SKIP_ONE)
 			jmp := c.emitJump(location.StartPos.Line, bytecode.JUMP_UNLESS_NP)
 			jumpsToPatch = append(jumpsToPatch, jmp)
@@ -4360,8 +4360,11 @@ subPatternLoop:
 	c.leavePattern()
 }
 
-func (c *BytecodeCompiler) listOrTuplePattern(typ types.Type, location *position.Location, elements []ast.PatternNode, isList bool) {
+func (c *BytecodeCompiler) listOrTuplePattern(typ, elementType types.Type, location *position.Location, elements []ast.PatternNode, isList bool) {
 	var jumpsToPatch []int
+	if elementType == nil {
+		elementType = types.Any{}
+	}
 
 	var restVariableName string
 	elementBeforeRestCount := -1
@@ -4448,7 +4451,7 @@ func (c *BytecodeCompiler) listOrTuplePattern(typ types.Type, location *position
 		c.emitValue(value.SmallInt(i).ToValue(), element.Location())
 		c.compileSubscript(typ, location)
 
-		c.pattern(element, typ)
+		c.pattern(element, elementType)
 		c.emit(location.StartPos.Line, bytecode.POP_SKIP_ONE)
 		jmp := c.emitJump(location.StartPos.Line, bytecode.JUMP_UNLESS_NP)
 		jumpsToPatch = append(jumpsToPatch, jmp)
@@ -4522,7 +4525,7 @@ func (c *BytecodeCompiler) listOrTuplePattern(typ types.Type, location *position
 			c.emitGetLocal(location.StartPos.Line, iteratorVar.index)
 			c.compileSubscript(typ, location)
 
-			c.pattern(element, typ)
+			c.pattern(element, elementType)
 			c.emit(location.StartPos.Line, bytecode.POP_SKIP_ONE)
 			jmp := c.emitJump(location.StartPos.Line, bytecode.JUMP_UNLESS_NP)
 			jumpsToPatch = append(jumpsToPatch, jmp)
